@@ -18,6 +18,15 @@ import (
 func init() {
 	extraEngines["C06"] = append(extraEngines["C06"], func(w *World, r *Report) []*Obligation { return schematic(w, r, "C06") })
 	extraEngines["C05"] = append(extraEngines["C05"], func(w *World, r *Report) []*Obligation { return schematic(w, r, "C05") })
+	// C10 rests on the same write frames: concurrent lint calls on distinct objects share no written memory
+	extraEngines["C10"] = append(extraEngines["C10"], func(w *World, r *Report) []*Obligation {
+		obls := schematic(w, r, "C05")
+		for _, o := range obls {
+			o.Name = "C10/" + strings.TrimPrefix(o.Name, "C05/")
+			o.Prop = "C10"
+		}
+		return obls
+	})
 	extraEngines["C02"] = append(extraEngines["C02"], func(w *World, r *Report) []*Obligation { return schematic(w, r, "C02") })
 	extraEngines["C01"] = append(extraEngines["C01"], func(w *World, r *Report) []*Obligation { return schematic(w, r, "C01") })
 }
@@ -196,7 +205,7 @@ func schematic(w *World, r *Report, prop string) []*Obligation {
 	var unsupported []string
 	skip := map[string]bool{}
 	if r.Mode == "check" {
-		for _, f := range loadLedger(w.VerifDir, prop).Unclaimed {
+		for _, f := range loadLedger(w.VerifDir, r.Prop).Unclaimed {
 			skip[f] = true
 		}
 	}
